@@ -364,6 +364,11 @@ def instant_cases():
             for off in (-1, 0, 1):
                 for later in (0, 1, 2):         # the query happens `later` seconds after the store
                     out.append({'backend': backend, 'reps': list(reps), 'off': off, 'later': later})
+    # expiries an hour away on either side, in processes whose local time zone is not UTC (instants are UTC whatever the zone)
+    for tz in ('EST5', 'XYZ-3', 'UTC'):
+        for reps in [(r,) for r in REPS]:
+            for off in (-3600, 3600):
+                out.append({'backend': 'mem', 'reps': list(reps), 'off': off, 'later': 0, 'tz': tz})
     return out
 
 
@@ -371,6 +376,26 @@ def run_instant(case):
     """One subject, one source per expiry representation, all expiring at the same instant T = store time + off; queried at store time + later.
     Away from T the statement decides (expired iff now > T ... strictly before / after T).  At now == T the statement leaves the verdict open, but one source at
     one instant is either expired or not: every accessor and every representation of the same instant must give the same verdict."""
+    import os
+    from saml2_tophat.cache import Cache
+    from saml2_tophat.population import Population
+    import time as _time
+    old_tz = os.environ.get('TZ')
+    if case.get('tz'):
+        os.environ['TZ'] = case['tz']
+        _time.tzset()
+    try:
+        return _run_instant(case)
+    finally:
+        if case.get('tz'):
+            if old_tz is None:
+                os.environ.pop('TZ', None)
+            else:
+                os.environ['TZ'] = old_tz
+            _time.tzset()
+
+
+def _run_instant(case):
     import os
     from saml2_tophat.cache import Cache
     from saml2_tophat.population import Population
@@ -425,7 +450,7 @@ def run_instant(case):
                 c._db.close()
             except Exception:
                 pass
-    return 'T%+d|%s' % (now - T, '+'.join(case['reps'])), True
+    return 'T%+d|%s%s' % (now - T, '+'.join(case['reps']), '|TZ=' + case['tz'] if case.get('tz') else ''), True
 
 
 def _raise(b, m):
